@@ -465,19 +465,28 @@ def expected(rp, r, lp, l, locale):
         out.append(("error", [a["off"] for a in lp.attrs if a["name"] == n][-1], "obsolete-attribute", n))
     # style
     rstyles = [a for a in rp.attrs if a["name"] == "style"]
-    rmap = {}
-    if rstyles and rstyles[-1]["plain"] and rstyles[-1]["css"] and rstyles[-1]["css"][0] == "good":
-        rmap = rstyles[-1]["css"][1]
+    # the reference's map: of its last style attribute.  Built from a spec list: that map;
+    # absent, not plain text or plain words: empty.  Broken on purpose: whatever specs are still
+    # found in it (the reference's own errors are ignored by the checker) -- CSS warnings are
+    # then not judged (they are C07's subject; C08 is about the errors)
+    rmap, rknown = {}, True
+    if rstyles and rstyles[-1]["plain"] and rstyles[-1]["css"]:
+        if rstyles[-1]["css"][0] == "good":
+            rmap = rstyles[-1]["css"][1]
+        else:
+            rknown = False
     lstyles = [a for a in lp.attrs if a["name"] == "style" and a["plain"]]
     good = [a for a in lstyles if a["css"] and a["css"][0] == "good"]
     for a in lstyles:
         if a not in good:
             out.append(("error", 0, "css-error", ""))
-    if len(good) == 1:
+    if len(good) == 1 and rknown:
         if good[0]["css"][1] != rmap:
             out.append(("warning", 0, "css-warning", None))
-    elif len(good) > 1:
-        out.append(("any", 0, "css-warning", None))      # repeated style attribute: not judged
+    elif good:
+        # repeated style attribute (check_style pops from the reference's map) or a broken
+        # reference spec: not judged
+        out.append(("any", 0, "css-warning", None))
     # references
     keys = [None] + [a["name"] for a in rp.attrs]
     for k in dict.fromkeys(keys):
@@ -832,6 +841,10 @@ def edge_pairs():
         (msg([T("a")], [("style", [T("x"), P(("var", "n"))])]), msg([T("a")], [("style", [good2])])),
         (msg([T("a")], [("style", [good])]), msg([T("a")], [("style", [T("x"), P(("var", "n"))])])),
         (msg([T("a")], [("style", [T("auto")])]), msg([T("a")], [("style", [T("auto")])])),
+        (msg([T("a")], [("style", [("text", "width: 10; width:  1ex", ("bad",))])]),
+         msg([T("a")], [("style", [("text", "width: 2ex", ("good", {"width": "ex"}))])])),
+        (msg([T("a")], [("style", [("text", "height  :  0.5chx", ("bad",))])]),
+         msg([T("a")], [("style", [("text", "height: 1em", ("good", {"height": "em"}))])])),
         (msg([P(("msg", "foo", None)), T(" "), P(("term", "brand", None, None))],
              [("title", [P(("msg", "foo", "title"))])]),
          msg([P(("msg", "bar", None))], [("title", [P(("msg", "foo", None)), P(("msg", "foo", None))])])),
